@@ -4639,7 +4639,12 @@ impl<'a> Assignment<'a> {
                 DataValue::String(v) => Ok(format!("DATA \"{}\" \"{}\" \"{}\";", set, key, v)),
                 DataValue::Bool(v) => Ok(format!("DATA \"{}\" \"{}\" {};", set, key, v)),
                 DataValue::Int(v) => Ok(format!("DATA \"{}\" \"{}\" {};", set, key, v)),
-                DataValue::Float(v) => Ok(format!("DATA \"{}\" \"{}\" {};", set, key, v)),
+                DataValue::Float(v) => Ok(format!(
+                    "DATA \"{}\" \"{}\" {};",
+                    set,
+                    key,
+                    crate::datavalue::float_to_string(*v)?
+                )),
                 _ => Err(StamError::QuerySyntaxError(
                     format!(
                         "There is no query syntax yet for this value in an assignment: {:?}",
